@@ -30,24 +30,29 @@ from .. import leanio
 from ..core import Ctx, CORPUS
 
 ID = "C16"
-LEVEL = "proof"
+LEVEL = "partial"
 ENGINES = ["lean-model", "purediff"]
 LEVEL_TEXT = (
+    "PARTIAL: three clauses of the property are false of the code and are proved only under exact guards. "
     "Lean theorems for ALL handler ids / records / bodies / accumulated patches about an executable model of key forming "
-    "(safe key, v1/v2 cut, hash suffix as a parameter, ReplicaSet-of-Deployment marking) and of store/fetch/purge/touch/clear "
-    "of the annotations and status storages, of arbitrary Multi storage TREES (proved equal to their flattening: tree_ops_flat) "
-    "and of the diff-base storages over RFC 7386 merge-patches. FULL: round trip (roundtrip_ann/_status/_status_fresh/_smart/"
-    "_diffbase/_diffbase_status, roundtrip_multi/_multi_apart/_multi_status_head/_dmulti/_dmulti_status_head), complete purge "
-    "(purge_complete_ann/_status/_smart/_multi), path-level isolation of store/purge/touch, user data and other prefixes "
-    "(foreign_annotation_untouched, other_prefix_untouched), clear, and stability of the names under everything a cycle changes "
-    "(names_depend_on_kind_and_owners, names_stable). PARTIAL (the clause is false of the code; exact guards, full statement "
-    "in a comment, witnesses = open findings): valid_name_v2_partial / valid_name_v1_partial / valid_names_partial (guard "
-    "EdgeAlnum = F6 only, since kopf e916847 generates no V1 key without room), distinct_partial / distinct_short_partial "
-    "(guards: digests differ = F6b, safe forms differ = F6d), id-level isolation for every prefix and both v1 settings within "
-    "one length band (isolation_ids_short/_long/_v1_hashed); the mixed band is refuted by forged_witness / forged_v1_witness "
-    "(F6e). REGRESSIONS of the repaired F6c/F6f: no_v1_key_without_room, v1_long_prefix_regression, v1_negative_cut_regression. 'Identical across restarts' is carried by the tie/oracle (fresh object, fresh interpreter "
-    "with another hash seed, golden names), not by a theorem. The model is tied to the real storages by a differential run "
-    "on every check; an independent Python oracle decides violations."
+    "(safe key, v1/v2 cut, v1_fits, hash suffix as a parameter, ReplicaSet-of-Deployment marking) and of store/fetch/purge/touch/clear "
+    "of the annotations and status storages, of arbitrary Multi storage TREES (proved equal to their flattening) and of the diff-base "
+    "storages over RFC 7386 merge-patches. UNGUARDED (modulo None-valued record keys, which the code drops, a writing head leaf, and "
+    "the covering hypothesis of the status storage = status_cover_witness): round trip (roundtrip_ann/_status/_status_fresh/_smart/"
+    "_diffbase/_diffbase_status/_multi/_multi_apart/_multi_status_head/_dmulti/_dmulti_status_head), complete purge "
+    "(purge_complete_ann/_status/_smart/_multi), path-level isolation of store/purge/touch/diff-base store (isolation_*), user data and "
+    "other prefixes (foreign_annotation_untouched, other_prefix_untouched), clear of the annotations storage, name stability "
+    "(names_depend_on_kind_and_owners, names_stable). GUARDED (_partial; full statement in a comment; each guard has a witness that is an "
+    "OPEN finding replayed from the corpus): valid names — valid_name_v2_partial/_v1_partial/valid_names_partial under EdgeOk, which "
+    "valid_name_v2_exact proves to be exactly F6, and under IdOk (lambda_id_witness = F6i); distinct names — distinct_partial/"
+    "_short_partial (F6b, F6d); 'never disturbs other handlers' at id level — isolation_ids_short_partial/_long_partial/_v1_hashed_partial "
+    "within one length band (F6d incl. ids > 63 via the shared V1 name = safe_form_long_v1_witness, F6b, F6e = forged_witness/"
+    "forged_v1_witness) and off the storages' own names (F6g = marker_witness, reserved_touch_witness, reserved_diffbase_witness; "
+    "name-level: touch_leaves_records, dstore_leaves_records). ORACLE/TIE ONLY (no theorem): 'identical across restarts' (fresh object, "
+    "fresh interpreter with another hash seed, golden names), unicode/JSON codec, statusClear and clear over trees, removeEmptyStanzas "
+    "beyond annotation lookups. Repaired F6c/F6f are regression examples. The model is tied to the real storages by a differential run "
+    "on every check; an independent Python oracle (strict: ids without a record read None, touch and diff-base store change no record) "
+    "decides violations."
 )
 TIE = "D: real storages (real constructors) vs. Lean driver on generated scenarios; hash suffixes passed in from the real make_suffix"
 THEOREMS = [
@@ -73,8 +78,12 @@ THEOREMS = [
     ("Kopf.Props.C16", "Kopf.C16.isolation_store_status"),
     ("Kopf.Props.C16", "Kopf.C16.isolation_purge_status"),
     ("Kopf.Props.C16", "Kopf.C16.isolation_touch_ann"),
+    ("Kopf.Props.C16", "Kopf.C16.isolation_touch_status"),
+    ("Kopf.Props.C16", "Kopf.C16.isolation_dstore"),
     ("Kopf.Props.C16", "Kopf.C16.isolation_other_handler"),
     ("Kopf.Props.C16", "Kopf.C16.isolation_other_handler_purge"),
+    ("Kopf.Props.C16", "Kopf.C16.touch_leaves_records"),
+    ("Kopf.Props.C16", "Kopf.C16.dstore_leaves_records"),
     ("Kopf.Props.C16", "Kopf.C16.foreign_annotation_untouched"),
     ("Kopf.Props.C16", "Kopf.C16.other_prefix_untouched"),
     ("Kopf.Props.C16", "Kopf.C16.clear_removes_own"),
@@ -83,31 +92,34 @@ THEOREMS = [
     ("Kopf.Props.C16", "Kopf.C16.names_stable"),
     ("Kopf.Props.C16", "Kopf.C16.status_cover_witness"),
     ("Kopf.Props.C16_Keys", "Kopf.C16.valid_name_v2_partial"),
+    ("Kopf.Props.C16_Keys", "Kopf.C16.valid_name_v2_exact"),
     ("Kopf.Props.C16_Keys", "Kopf.C16.valid_name_v1_partial"),
     ("Kopf.Props.C16_Keys", "Kopf.C16.valid_names_partial"),
     ("Kopf.Props.C16_Keys", "Kopf.C16.valid_name_marked"),
     ("Kopf.Props.C16_Keys", "Kopf.C16.distinct_partial"),
     ("Kopf.Props.C16_Keys", "Kopf.C16.distinct_short_partial"),
-    ("Kopf.Props.C16_Keys", "Kopf.C16.isolation_ids_short"),
-    ("Kopf.Props.C16_Keys", "Kopf.C16.isolation_ids_long"),
-    ("Kopf.Props.C16_Keys", "Kopf.C16.isolation_ids_v1_hashed"),
-    ("Kopf.Props.C16_Keys", "Kopf.C16.no_v1_key_without_room"),
-    ("Kopf.Props.C16_Keys", "Kopf.C16.v1_long_prefix_regression"),
-    ("Kopf.Props.C16_Keys", "Kopf.C16.v1_negative_cut_regression"),
+    ("Kopf.Props.C16_Keys", "Kopf.C16.isolation_ids_short_partial"),
+    ("Kopf.Props.C16_Keys", "Kopf.C16.isolation_ids_long_partial"),
+    ("Kopf.Props.C16_Keys", "Kopf.C16.isolation_ids_v1_hashed_partial"),
     ("Kopf.Props.C16_Keys", "Kopf.C16.edge_witness"),
     ("Kopf.Props.C16_Keys", "Kopf.C16.edge_witness_front"),
     ("Kopf.Props.C16_Keys", "Kopf.C16.sfx_witness"),
     ("Kopf.Props.C16_Keys", "Kopf.C16.collision_witness"),
     ("Kopf.Props.C16_Keys", "Kopf.C16.safe_form_witness"),
+    ("Kopf.Props.C16_Keys", "Kopf.C16.safe_form_long_v1_witness"),
     ("Kopf.Props.C16_Keys", "Kopf.C16.forged_witness"),
     ("Kopf.Props.C16_Keys", "Kopf.C16.forged_v1_witness"),
+    ("Kopf.Props.C16_Keys", "Kopf.C16.marker_witness"),
+    ("Kopf.Props.C16_Keys", "Kopf.C16.reserved_touch_witness"),
+    ("Kopf.Props.C16_Keys", "Kopf.C16.reserved_diffbase_witness"),
+    ("Kopf.Props.C16_Keys", "Kopf.C16.lambda_id_witness"),
 ]
 RULE = ("scenario = storage configuration (Annotations/Status/Smart/Multi as TREES: nested and empty Multis, status-headed and annotation-headed, sent to the model as trees, prefix from default / "
         "my-op.example.com / short / long-ish / 54..189 chars, v1 on/off, verbose, custom touch key / fields) x handler id over "
         "[A-Za-z0-9_./<>-]{1,300} (length bands around 63-|prefix|-1, 56, 63 with +-2, sub-handler paths, field suffixes, "
-        "<locals> qualnames, special first/last characters, reserved names) x record (unicode, nulls, partial, empty) x body "
-        "(user annotations, foreign-prefix records, other handlers' records incl. ids sharing a 58+ prefix and safe-form "
-        "variants, ReplicaSets owned by Deployments, corrupted stanzas); each scenario runs keys/store/fetch/purge/touch/clear "
+        "<locals> qualnames, special first/last characters, the storages' own names, kopf's lambda ids) x record (unicode, nulls, partial, empty) x body "
+        "(user annotations, foreign-prefix records, other handlers WITH and WITHOUT records incl. ids sharing a 58+ prefix, safe-form "
+        "variants and forged names, ReplicaSets owned by Deployments, corrupted stanzas); each scenario runs keys/store/fetch/purge/touch/clear "
         "and the diff-base store/fetch through the real code and the model; distinct = distinct abstraction tuple "
         "(storage shape, prefix class, length band, id shape, record flags, body flags); non-trivial = hashed or two-key or "
         "marked or special-char id, or nulls/unicode in the record, or Multi storage, or pre-existing record")
@@ -126,8 +138,16 @@ ASSUMPTIONS = [
     "(CRDs without x-kubernetes-preserve-unknown-fields) would drop a status-stored record — environment assumption",
     "json.dumps/json.loads: the theorems use only the instance loads(dumps(x)) = x at the value written; no injective codec is "
     "constructed in Lean (CPython's json is exercised by the tie)",
+    "ids outside [A-Za-z0-9_./<>-] (kopf's own lambda ids) are generated and judged (F6i) although outside the property's quantifier",
     "id-level isolation is proved within one length band only (both ids their own V1 names / both V1-hashed / both V2-hashed); "
     "across bands an id can spell the hashed name of another (F6e); the oracle checks isolation on every scenario",
+    "the body given to an operation is the object the patch lands on (no stale view: a purge decided on a stale body without the "
+    "record is a no-op), and the patch is applied as ONE atomic merge: the real client splits body and status into two PATCH requests "
+    "when status is a subresource, and the API server rejects the WHOLE body patch (422) when one annotation name is invalid (F6/F6i)",
+    "a ReplicaSet keeps or loses its Deployment owner only between cycles; after orphaning/adoption the names switch between k and "
+    "k-ofDRS and the old records are neither read nor purged (MarkStable covers one cycle)",
+    "'purged completely' is read modulo the <prefix>/kopf-managed marker, the touch annotation and an empty status container",
+    "V1 keys left by an earlier v1=True configuration are neither read nor purged after switching to v1=False",
     "a Multi storage headed by a no-write status storage would read stale status records first (not a shipped configuration: "
     "Smart puts the annotations first); roundtrip_multi* require a writing head",
 ]
